@@ -29,6 +29,7 @@ pub fn prop() -> HistProp {
         nontrivial,
         quick_cases: 8000,
         thorough_cases: 150000,
+        pressure_cases: (3000, 50000),
         assumptions: vec!["differential oracle, independent of the reference model", "documented preconditions of DESIGN 4.3"],
     }
 }
